@@ -23,6 +23,10 @@ def scripts(name):
         'partialout': [[('cmd', b'pa'), ('cmd', b'cb')]],
         'partiallist': [[('list', [b'la', b'pb', b'lc'])], [('cmd', b'cc')]],
         'firstpartial': [[('list', [b'pa', b'lb'])]],
+        'typed0': [[('typed', [])]],
+        'typed0after': [[('cmd', b'cx'), ('typed', [])]],
+        'typed2': [[('typed', [b'ca', b'cb'])], [('cmd', b'cx')]],
+        'typed3': [[('typed', [b'ca', b'cb', b'cc'])]],
     }[name]
 
 def instances_for(prop, tier, seed):
@@ -48,6 +52,9 @@ def instances_for(prop, tier, seed):
         add(script='two', prefix='after_reply', k=k, budget={'tick': 1, 'slowwrite': 1})
         add(script='listok', k=k, budget={'slowwrite': 1})
         add(script='twocallers', prefix='after_reply', k=k, budget={'tick': 1, 'cancel': 1})
+        # a reply that takes very long (a minute passes while it is outstanding), then the next request
+        add(script='two', prefix='inflight', k=k, budget={'longtick': 1})
+        add(script='twocallers', prefix='inflight', k=k - 1, budget={'longtick': 1, 'tick': 1})
         # cancellation
         add(script='twocallers', k=k, budget={'cancel': 1})
         add(script='threecallers', k=k - 1, budget={'cancel': 1}, prefix='inflight')
@@ -62,6 +69,12 @@ def instances_for(prop, tier, seed):
             add(script='listok', k=k, budget={'change': 1, 'tick': 1})
             add(script='mixed', prefix='after_reply', k=k, budget={'cancel': 1, 'tick': 1})
             add(script='threecallers', k=k, budget={'change': 1})
+    if prop == 'C13':
+        add(script='typed0', k=2, budget={})
+        add(script='typed0', k=3, budget={'faults': ['eof']})
+        add(script='typed0after', prefix='after_reply', k=3, budget={'faults': ['eof'], 'tick': 1})
+        add(script='typed2', k=4 if q else 6, budget={'tick': 1})
+        add(script='typed3', k=3 if q else 5, budget={'change': 1})
     if prop == 'C08':
         k = 3 if q else 4
         for f in ('eof', 'read_error', 'write_error', 'garbage'):
@@ -138,7 +151,10 @@ def observe(S):
         else:
             obs['events'].append('end')
     for c in S.callers:
-        obs['callers'].append({'results': [(req_txt(req), out_txt(outcome_of(r))) for req, r in c.results], 'pending': req_txt(c.current) if c.fut is not None else None,
+        def oc(req, r):
+            o = outcome_of(r)
+            return ('typed', []) if (req[0] == 'typed' and o == ('frames', [])) else o
+        obs['callers'].append({'results': [(req_txt(req), out_txt(oc(req, r))) for req, r in c.results], 'pending': req_txt(c.current) if c.fut is not None else None,
                                'cancelled': [req_txt(x) for x in c.cancelled], 'unissued': [req_txt(x) for x in c.script[c.next:]]})
     if S.clients:
         obs['is_closed'] = bool(S.I.call_repo('mpd_client::client::Client::is_connection_closed', [ref_to(S.clients[0])]))
@@ -149,7 +165,7 @@ def observe(S):
 def req_txt(req):
     if req is None:
         return None
-    return req[0] + ':' + (req[1].decode() if req[0] != 'list' else ','.join(x.decode() for x in req[1]))
+    return req[0] + ':' + (req[1].decode() if req[0] not in ('list', 'typed') else ','.join(x.decode() for x in req[1]))
 
 def out_txt(o):
     def ff(frames):
@@ -160,11 +176,13 @@ def out_txt(o):
         return ['frames', ff(o[1])]
     if o[0] == 'ack':
         return ['ack', int(o[1]), int(o[2]), o[3].decode() if o[3] else None, ff(o[4])]
+    if o[0] == 'typed':
+        return ['typed', [[int(k), ff([f])[0]] for k, f in o[1]]]
     return [str(x) if not isinstance(x, (str, int, type(None))) else x for x in o]
 
 def expected_txt(req):
     kind, _, body = req.partition(':')
-    r = ('cmd', body.encode()) if kind == 'cmd' else ('list', [x.encode() for x in body.split(',')])
+    r = ('cmd', body.encode()) if kind == 'cmd' else (kind, [x.encode() for x in body.split(',') if x])
     return out_txt(expected_reply(r))
 
 # ---------------------------------------------------------------------------- judges (work on the python observation)
@@ -186,10 +204,27 @@ def judge_c01(obs):
         pos = -1
         for r, _ in c['results']:
             first = r.partition(':')[2].split(',')[0]
+            if first == '':
+                continue            # an empty typed list sends nothing
             if first in reqlines[pos + 1:]:
                 pos = reqlines.index(first, pos + 1)
             else:
                 return 'caller %d: completed request %s was never received by the server (or out of order)' % (ci, r)
+    return None
+
+def judge_c13(obs):
+    r = judge_c01(obs)
+    if r:
+        return r
+    for ci, c in enumerate(obs['callers']):
+        for req, out in c['results']:
+            if req == 'typed:' and out != ['typed', []]:
+                return 'caller %d: the empty typed list resolved with %s instead of an empty result' % (ci, out)
+    issued = [x for c in obs['callers'] for x in [r for r, _ in c['results']] + c['cancelled'] + ([c['pending']] if c['pending'] else [])]
+    sent = [l for l in obs['lines'] if l not in ('idle', 'noidle')]
+    expect = sum(len([n for n in r.partition(':')[2].split(',') if n]) + (2 if (r.startswith(('list:', 'typed:')) and r.count(',') >= 1) else 0) for r in issued)
+    if len(sent) > expect:
+        return 'more request lines written (%s) than the issued requests account for (%s)' % (sent, issued)
     return None
 
 def judge_c04(obs):
@@ -209,6 +244,11 @@ def judge_c05(obs):
         # after the re-idle delay the client must be idling again
         if not obs['server_idle']:
             return 'no request pending and the re-idle delay expired, but the server is not in idle (last lines %s)' % lines[-3:]
+    if not obs['loop_done'] and any(c['pending'] for c in obs['callers']) and not obs['server_idle'] and not any(f.startswith('fault') for f in obs['flags']):
+        # quiescence: everything the server produced was delivered, every timer expired, every task polled - and a request is still
+        # queued although the server is neither idling (waiting for noidle) nor holding an unanswered request: the session is stalled
+        return 'the session is stalled: request %s is still pending at quiescence, the server is not idling and has answered everything it received (last lines %s)' % (
+            [c['pending'] for c in obs['callers'] if c['pending']], lines[-3:])
     return None
 
 def judge_c08(obs):
@@ -251,7 +291,7 @@ def judge_c08(obs):
             return 'transport failure (%s) surfaced neither to a caller nor as closing event' % hard[0]
     return None
 
-JUDGES = {'C01': judge_c01, 'C04': judge_c04, 'C05': judge_c05, 'C08': judge_c08}
+JUDGES = {'C13': judge_c13, 'C01': judge_c01, 'C04': judge_c04, 'C05': judge_c05, 'C08': judge_c08}
 
 def classes_c04(obs):
     """known-finding classes by scenario feature"""
@@ -493,6 +533,9 @@ def parse_native_outcome(o):
     if o.startswith('frames ['):
         body = o[8:-1]
         return ['frames', [[tuple(x) for x in frame(f)] for f in body.split('|')] if body else []]
+    if o.startswith('typed ['):
+        body = o[7:-1]
+        return ['typed', [[int(x.partition('>')[0]), [tuple(y) for y in frame(x.partition('>')[2])]] for x in body.split('|')] if body else []]
     if o.startswith('ack '):
         head, _, fr = o.partition(' [')
         _, code, idx, cmd = head.split(' ')
